@@ -120,6 +120,14 @@ func getVariablesList(s ast.SelectionSet) []string {
 			}
 		}
 
+		for _, d := range f.Directives {
+			for _, a := range d.Arguments {
+				if a.Value != nil && a.Value.Kind == ast.Variable {
+					args = append(args, a.Value.Raw)
+				}
+			}
+		}
+
 		if f.SelectionSet != nil {
 			args = append(args, getVariablesList(f.SelectionSet)...)
 		}
